@@ -469,6 +469,61 @@ var expectedShapes = map[string]shape{
 	"Countersignature":     {-1, 3},
 }
 
+// checkStoredSignatureNonEmpty: the Signature field of the one whole value a
+// structure decoder stores is known to be non-empty at the store.
+func checkStoredSignatureNonEmpty(r *Report, rule, name string, st *recvWrite) {
+	P := r.P
+	sg := projectField(st.val, "Signature")
+	fs := P.factsBefore(st.at)
+	okNE := fs.holdsNonEmpty(sg)
+	if call := helperResult(P, sg); !okNE && call != nil && (sg.Op == "field" || sg.Op == "load") {
+		// the value comes from a helper: non-empty on each of its delivering exits
+		h := P.calleeOfTerm(call)
+		if ei := errIndex(h); ei >= 0 && fs.has(okFact(&Term{Op: "res", S: itoa(int64(ei)), Args: []*Term{call}})) {
+			okNE = true
+			n := 0
+			for _, hx := range P.factsOf(h).exits {
+				if hx.kind == exitFailure {
+					continue
+				}
+				n++
+				hv := hx.results[0]
+				if a, isPtr := hx.ret.Results[0].(*ssa.Alloc); isPtr {
+					hv = P.terms.loadPath(a, nil, hx.ret)
+				}
+				if !exitFacts(P, hx).holdsNonEmpty(projectField(hv, "Signature")) {
+					okNE = false
+				}
+			}
+			okNE = okNE && n > 0
+		}
+	}
+	r.ob(rule, name+":nonempty-signature", st.fn, st.at, "stored Signature is non-empty").check(okNE, "fact len("+sg.String()+") != 0", "the decoder can store an empty signature: no fact len("+sg.String()+") != 0 before the store")
+}
+
+// checkDecodersRefuseEmptySignature (R05.4; shared with C11): every structure
+// decoder other than the COSE_Sign body (whose elements go through the
+// Signature decoder, R11.3) stores a non-empty signature.
+func checkDecodersRefuseEmptySignature(r *Report, rule string) {
+	P := r.P
+	n := 0
+	for _, T := range P.structureTypes() {
+		name := T.Obj().Name()
+		D := P.methodOf(T, "UnmarshalCBOR")
+		if D == nil || name == "SignMessage" {
+			continue
+		}
+		sts := P.receiverWrites(D)
+		if len(sts) != 1 || !sts[0].complete {
+			r.ob(rule, name+":stored-value", D, nil, "the decoder stores exactly one whole value into its receiver").fail(fmt.Sprintf("%d assignments to the receiver in the decoder's call tree", len(sts)))
+			continue
+		}
+		n++
+		checkStoredSignatureNonEmpty(r, rule, name, sts[0])
+	}
+	r.floor(rule, n, 3, "structure decoders that store a signature")
+}
+
 func runC05(r *Report, tier string) {
 	P := r.P
 	r.rule("R05.1", "both decode modes are built from constant options DupMapKey=EnforcedAPF, IndefLength=Forbidden, IntDec=ConvertSigned (the envelope mode additionally TagsMd=Forbidden), no acceptance-widening option is set, and each mode variable is assigned exactly once, in init.")
@@ -674,37 +729,11 @@ func runC05(r *Report, tier string) {
 		}
 		os.ok("one assignment at "+P.instrPos(sts[0].at), false)
 		st := sts[0]
-		V := st.val
 		// R05.4
 		if name == "SignMessage" {
 			checkSignMessageDecoderElems(r, "R05.4")
 		} else {
-			sg := projectField(V, "Signature")
-			fs := P.factsBefore(st.at)
-			okNE := fs.holdsNonEmpty(sg)
-			if call := helperResult(P, sg); !okNE && call != nil && (sg.Op == "field" || sg.Op == "load") {
-				// the value comes from a helper: non-empty on each of its delivering exits
-				h := P.calleeOfTerm(call)
-				if ei := errIndex(h); ei >= 0 && fs.has(okFact(&Term{Op: "res", S: itoa(int64(ei)), Args: []*Term{call}})) {
-					okNE = true
-					n := 0
-					for _, hx := range P.factsOf(h).exits {
-						if hx.kind == exitFailure {
-							continue
-						}
-						n++
-						hv := hx.results[0]
-						if a, isPtr := hx.ret.Results[0].(*ssa.Alloc); isPtr {
-							hv = P.terms.loadPath(a, nil, hx.ret)
-						}
-						if !exitFacts(P, hx).holdsNonEmpty(projectField(hv, "Signature")) {
-							okNE = false
-						}
-					}
-					okNE = okNE && n > 0
-				}
-			}
-			r.ob("R05.4", name+":nonempty-signature", st.fn, st.at, "stored Signature is non-empty").check(okNE, "fact len("+sg.String()+") != 0", "the decoder can store an empty signature: no fact len("+sg.String()+") != 0 before the store")
+			checkStoredSignatureNonEmpty(r, "R05.4", name, st)
 		}
 		checkDecoderLayer(r, "R05.5", name, st, W, ivFn)
 	}
